@@ -117,7 +117,7 @@ def api_case(n, markers, perm, avail=None):
     return replay_api(n, markers, perm, w, avail)
 
   explore_and_check(res, fn, build, replay=replay, negative=lambda p: build(p, wrong=True),
-                    explorer_kw=dict(max_paths=60000), max_seconds=300)
+                    explorer_kw=dict(max_paths=60000), max_seconds=300 if n < 5 else 1200)
   return res
 
 
